@@ -471,7 +471,15 @@ class UTPM(Ring, RawAlgorithmsMixIn):
                 # the logarithm in the type of the result: a complex exponent needs the principal value of
                 # the log of a negative real base, a double precision exponent a double precision log
                 return UTPM.exp(UTPM.log(UTPM(self.data.astype(dtype)))*r)
-            return UTPM.exp(UTPM.log(self)*r)
+            z = UTPM.exp(UTPM.log(self)*r)
+            if z.data.dtype.kind == 'f' and numpy.any(self.data[0] < 0):
+                # a negative base: the value x_0 ** y_0 exists for an integer y_0 (numpy.power),
+                # log(x_0) does not; the higher coefficients stay undefined (nan)
+                x_data, y_data = UTPM._broadcast_arrays(self.data, r.data)
+                with numpy.errstate(invalid='ignore'):
+                    v = numpy.power(x_data[0], y_data[0])
+                z.data[0] = numpy.where(x_data[0] < 0, v, z.data[0])
+            return z
         else:
             x_data = self.data
             if isinstance(r, numpy.ndarray) and r.ndim > 0:
